@@ -455,8 +455,9 @@ pub fn run_c09(ctx: &Ctx) -> Outcome {
             case: v["case"].clone(),
         });
     }
+    dev_profile_probe(ctx, &mut out);
     out.assumptions = vec![
-        "stack-overflow clause decided for optimised builds (opt-level 3, debug assertions on) with 2 MiB thread stacks".into(),
+        "everything except the dev-profile probe runs an optimised build (opt-level 3, debug assertions on); all generation threads have 2 MiB stacks".into(),
         "a loop that spins without emitting is only caught by the watchdog and then reported as inconclusive (exit 2), never as a violation".into(),
     ];
     out
@@ -489,6 +490,110 @@ pub fn c09_one(ctx: &Ctx, path: &str) -> i32 {
     match r {
         Ok(()) => 0,
         Err(_) => 1,
+    }
+}
+
+// ------------------------------------------------------------------------------------------
+// C09, unoptimised build: the profile `cargo test` / `cargo run` users get by default
+// ------------------------------------------------------------------------------------------
+
+/// build the harness (and with it the repository crate) in cargo's `dev` profile (opt-level 0)
+pub fn build_dev_harness(ctx: &Ctx) -> Result<String, String> {
+    let out = Command::new("cargo")
+        .args(["build", "--offline", "--bin", "pfverif"])
+        .current_dir(format!("{}/harness", ctx.verif_dir))
+        .env("CARGO_NET_OFFLINE", "true")
+        .output()
+        .map_err(|e| format!("cargo: {}", e))?;
+    if !out.status.success() {
+        return Err(format!("building the dev-profile harness failed: {}", String::from_utf8_lossy(&out.stderr).lines().rev().take(10).collect::<Vec<_>>().join(" | ")));
+    }
+    Ok(format!("{}/target/harness/debug/pfverif", ctx.verif_dir))
+}
+
+/// run one case in a fresh process of the dev-profile binary; Ok(None) = fine
+pub fn dev_one(ctx: &Ctx, exe: &str, case: &GenCase, idx: usize, limit: Duration) -> Result<Option<String>, String> {
+    let path = format!("{}/work/c09-dev-{}-{}.json", ctx.verif_dir, std::process::id(), idx);
+    std::fs::write(&path, serde_json::to_vec(case).unwrap()).map_err(|e| e.to_string())?;
+    let mut ch = Command::new(exe)
+        .args(["c09-one", &path])
+        .env("VERIF_DIR", &ctx.verif_dir)
+        .stdout(Stdio::null())
+        .stderr(Stdio::null())
+        .spawn()
+        .map_err(|e| e.to_string())?;
+    let st = wait_with_timeout(&mut ch, limit);
+    let _ = std::fs::remove_file(&path);
+    match st {
+        None => Err("watchdog: the case did not finish in time".into()),
+        Some(s) if s.success() => Ok(None),
+        Some(s) if s.code() == Some(1) => Ok(Some("the generation failed (Err / panic / empty output)".into())),
+        Some(s) => Ok(Some(format!("the process died: {}", s))),
+    }
+}
+
+fn dev_cases(ctx: &Ctx) -> Vec<GenCase> {
+    // long programs from exhausted / constant fuzzer bytes (deepest nesting) and from a PRNG seed
+    let sizes: &[usize] = if ctx.thorough() { &[14_000, 20_500, 30_000] } else { &[14_000] };
+    let mut v = vec![];
+    for p in 0u8..=5 {
+        for &n in sizes {
+            let mut c = GenCase::default_for(p, ctx.seed);
+            c.min_opcodes = n;
+            c.max_opcodes = n;
+            c.entropy = if p % 3 == 2 { Entropy::Seed(ctx.seed ^ 77) } else { Entropy::Bytes(if p % 3 == 0 { vec![] } else { vec![0xff; 48] }) };
+            v.push(c);
+        }
+    }
+    v
+}
+
+/// C09 on an unoptimised build
+pub fn dev_profile_probe(ctx: &Ctx, out: &mut Outcome) {
+    if out.failed() || out.inconclusive.is_some() {
+        return;
+    }
+    let exe = match build_dev_harness(ctx) {
+        Ok(e) => e,
+        Err(e) => {
+            out.inconclusive = Some(e);
+            return;
+        }
+    };
+    let items: Vec<(usize, GenCase)> = dev_cases(ctx).into_iter().enumerate().collect();
+    let (st, found) = run_enum(items, |(i, c), st| {
+        st.label("dev-profile (opt-level 0) generation of a very long program in its own process");
+        match dev_one(ctx, &exe, c, *i, Duration::from_secs(1800)) {
+            Err(e) => Err(Fail::new("harness:watchdog", e)),
+            Ok(None) => {
+                st.nontrivial(util::digest_str(&format!("dev{}", c.brief())));
+                Ok(())
+            }
+            Ok(Some(desc)) => ctx.fail(
+                st,
+                Fail::new("process-death:dev-profile", format!("unoptimised build (cargo dev profile, 2 MiB thread stack): {} for {}", desc, c.brief())),
+            ),
+        }
+    });
+    out.stats.merge(st);
+    if let Some(((_, c), f)) = found {
+        if f.sig.starts_with("harness:") {
+            out.inconclusive = Some(f.msg);
+        } else {
+            out.violation = Some(Violation { fail: f, case: json!({"dev_profile": true, "case": c}) });
+        }
+    }
+}
+
+pub fn replay_c09_dev(ctx: &Ctx, c: &GenCase) -> Result<(), Fail> {
+    let exe = build_dev_harness(ctx).map_err(|e| Fail::new("harness:build", e))?;
+    match dev_one(ctx, &exe, c, 999_999, Duration::from_secs(1800)) {
+        Err(e) => Err(Fail::new("harness:watchdog", e)),
+        Ok(None) => Ok(()),
+        Ok(Some(desc)) => {
+            let mut st = Stats::default();
+            ctx.fail(&mut st, Fail::new("process-death:dev-profile", format!("unoptimised build (cargo dev profile, 2 MiB thread stack): {} for {}", desc, c.brief())))
+        }
     }
 }
 
